@@ -14,6 +14,13 @@ use crate::T;
 /// *FragmentDefinition*:
 ///     **fragment** FragmentName TypeCondition Directives? SelectionSet
 pub(crate) fn fragment_definition(p: &mut Parser) {
+    // The document dispatch looks through a leading string at the `fragment` keyword,
+    // but unlike type system definitions a fragment definition has no description.
+    if let Some(TokenKind::StringValue) = p.peek() {
+        p.err_and_pop("expected a Fragment Definition, found a description");
+        return;
+    }
+
     let _g = p.start_node(SyntaxKind::FRAGMENT_DEFINITION);
     p.bump(SyntaxKind::fragment_KW);
 
